@@ -248,7 +248,7 @@ func C07(c *Ctx) {
 		}))
 		r.Check("C07-8", FnKey(s.Fn)+":NewStructMethodNode", c.Pos(s.Pos()), ok, "a method node is built without CompliesGetter / ParseGetterReturnTypes having accepted that method (ExprType() would index an empty result tuple, ReturnsError() would be wrong); reach: "+d.Describe(c.O))
 	}
-	r.Floor("C07-8", "NewStructMethodNode sites", nm, 3)
+	r.Floor("C07-8", "NewStructMethodNode sites", nm, 2) // the member iterator and at least one path resolver
 
 	r.Rule("C07-4", "I2: buildManipulator returns a hook only if ¬(hook.RetError ∧ ¬retError); retError is MethodEntry.RetError() at every call site")
 	if fn := c.MustMethod("C07-4", "/pkg/builder", "FunctionBuilder", "buildManipulator"); fn != nil {
@@ -419,7 +419,9 @@ func (c *Ctx) c07Flags() {
 			return x.IsCallTo("(*go/types.Tuple).Len") && x.Args[0].IsCallTo("(*go/types.Signature).Results")
 		}
 		secondErr := func(t *core.Term) bool {
-			return t.IsCallTo(fnIsErrorType) && t.Contains(func(s *core.Term) bool { return s.IsCallTo("(*go/types.Tuple).At") && s.Args[1].Is("const", "1") && s.Args[0].IsCallTo("(*go/types.Signature).Results") })
+			return t.IsCallTo(fnIsErrorType) && t.Contains(func(s *core.Term) bool {
+				return s.IsCallTo("(*go/types.Tuple).At") && s.Args[1].Is("const", "1") && s.Args[0].IsCallTo("(*go/types.Signature).Results")
+			})
 		}
 		rc := c.Reach(fn)
 		n := 0
